@@ -56,18 +56,36 @@ PROFILE_C20 = {
 }
 
 
+TAG_TEXT = {
+    "C20:valid-session-refused": "a request whose session was created, not deleted, and never idle for a full timeout was answered 401",
+    "C20:invalid-cookie-accepted": "a request with a missing / unknown / expired / deleted cookie was not answered 401",
+    "C20:refused-request-answered": "a request that had to be refused reached the lock server (a response body of a lock route was produced)",
+    "C20:refused-request-changed-state": "the probes before and after a request answered 401 differ",
+    "C20:expiry-not-prompt": "the advance completed a full timeout of idleness of a session but its ConnEnd was not delivered within that advance",
+    "C20:connend-unexpected": "HandleConn(ConnEnd) was delivered where no session ends (not a DELETE of a live session, not an advance completing its timeout)",
+    "C20:connend-twice": "HandleConn(ConnEnd) was delivered a second time for the same session",
+    "C20:delete-of-valid-session-refused": "DELETE /session of a live session was not answered 200",
+    "C20:delete-without-connend": "DELETE /session of a live session did not deliver exactly its ConnEnd",
+    "C20:delete-of-invalid-session-accepted": "DELETE /session with a missing / unknown / ended cookie was answered 200",
+    "C20:create-failed": "POST /session was not answered 201",
+    "C20:table-vs-live-sessions": "the gateway's session table differs from the set of sessions that are live by the gap rule",
+    "C20:holds-survive-session-end": "every session has ended but the lock server still lists holds",
+    "C20:gateway-crash": "a handler panicked or never returned",
+}
+
+
 def c20_fails(batch):
     """{hid: [(idx, tag, text)]} from the extracted oracle's T / I lines and from panics."""
     out = {}
     for hid, r in batch["results"].items():
-        f = [(i, t, "") for i, t in r["T"] + r["I"] if t.startswith("C20:")]
+        f = [(i, t, TAG_TEXT.get(t, "")) for i, t in r["T"] + r["I"] if t.startswith("C20:")]
         case = batch["cases"].get(hid)
         if case is not None and case.get("panic"):
             try:
                 ptxt = bytes.fromhex(case["panic"]).decode("utf-8", "replace")
             except ValueError:
                 ptxt = str(case["panic"])
-            f.append((max(0, len(case["blocks"]) - 1), "C20:gateway-crash", ptxt))
+            f.append((max(0, len(case["blocks"]) - 1), "C20:gateway-crash", TAG_TEXT["C20:gateway-crash"] + ": " + ptxt))
         if case is not None:
             f += holds_released(case)
         if f:
@@ -242,7 +260,7 @@ def run(ctx):
         return do_replay(ctx, b, runner)
 
     quick = ctx.tier == "quick"
-    n = 200 if quick else 5000
+    n = 600 if quick else 8000
     prof = dict(PROFILE_C20)
     if not quick:
         prof["max_len"] = 60
@@ -281,7 +299,7 @@ def run(ctx):
 
     # ---- races
     race_corpus = load_race_corpus()
-    nv, nr = (40, 40) if quick else (600, 400)
+    nv, nr = (80, 80) if quick else (1500, 800)
     rr = run_races(ctx, b, nv, nr, ctx.seed)
     rruns = [rr]
     if race_corpus:
